@@ -324,7 +324,9 @@ impl EigenTrustEngine {
             // flow. Without this it would leak and be handed back proportionally by
             // the normalisation below - also to identities nobody vouches for.
             // Standard EigenTrust: such nodes defer to the pre-trusted distribution.
-            let dangling_mass: f64 = nodes
+            // (`scored`, not `nodes`: an anchor nobody has rated or reported on yet is
+            // not in `nodes`, but it holds teleported trust from the first round on.)
+            let dangling_mass: f64 = scored
                 .iter()
                 .filter(|node| outgoing_sums.get(*node).is_none_or(|sum| *sum <= 0.0))
                 .filter_map(|node| trust_vector.get(node))
